@@ -357,6 +357,79 @@ func runC10(c *Ctx) {
 	checkGoroutineJoin(c)
 	checkFilterErrChecked(c)
 	checkZeroReadFatal(c)
+	checkPollResultClassified(c)
+}
+
+// checkPollResultClassified is R10.7: what a poll returned is looked at before the receiver can leave. In every engine function
+// that calls ReceiveProbe, no return is reachable from the call without passing a branch on the call's error: a cancellation test
+// placed between the call and the classification of its result drops a fatal read error (and a capability verdict) of the poll that
+// was in flight when the run's deadline passed – the run then reports a partial path as a success.
+func checkPollResultClassified(c *Ctx) {
+	R := c.R
+	n := 0
+	for _, e := range Engines(c.P) {
+		for _, r := range e.RecvSites {
+			g := r.Parent()
+			fn := core.FuncName(g)
+			var errv ssa.Value
+			for _, ref := range *r.Referrers() {
+				if ex, ok := ref.(*ssa.Extract); ok && ex.Index == 1 {
+					errv = ex
+				}
+			}
+			if errv == nil {
+				R.Fail("R10.7", fn+"#poll-classified", r.Pos(), fn, "the error of ReceiveProbe is discarded")
+				continue
+			}
+			n++
+			derived := func(v ssa.Value) bool {
+				seen := map[ssa.Value]bool{}
+				var walk func(v ssa.Value, d int) bool
+				walk = func(v ssa.Value, d int) bool {
+					if v == nil || d > 5 || seen[v] {
+						return false
+					}
+					seen[v] = true
+					if v == errv {
+						return true
+					}
+					if in, ok := v.(ssa.Instruction); ok {
+						for _, op := range in.Operands(nil) {
+							if op != nil && *op != nil && walk(*op, d+1) {
+								return true
+							}
+						}
+					}
+					return false
+				}
+				return walk(v, 0)
+			}
+			tests := map[*ssa.BasicBlock]bool{}
+			for _, b := range g.Blocks {
+				if iff, ok := b.Instrs[len(b.Instrs)-1].(*ssa.If); ok && derived(iff.Cond) {
+					tests[b] = true
+				}
+			}
+			leak := false
+			if !tests[r.Block()] {
+				for _, b := range g.Blocks {
+					if _, isRet := b.Instrs[len(b.Instrs)-1].(*ssa.Return); !isRet || b.Comment == "recover" {
+						continue
+					}
+					for _, sx := range r.Block().Succs {
+						if reachAvoiding(sx, b, tests, nil) {
+							leak = true
+						}
+					}
+					if b == r.Block() {
+						leak = true
+					}
+				}
+			}
+			R.Check(!leak, "R10.7", fn+"#poll-classified", r.Pos(), fn, "no return is reachable from the poll without a branch on its error", "a return is reachable after ReceiveProbe without any branch on the error it returned: a fatal read error (or the SACK capability verdict) of that poll is dropped and the run ends as a success with a partial path")
+		}
+	}
+	R.Floor("R10.7:polls", n, 2)
 }
 
 // checkZeroReadFatal is R10.6: a zero-length read is a fault of the capture handle; it must end the run with an
